@@ -155,7 +155,7 @@ Definition run_mach (oc : bool) (c : list Z) : list Z :=
       (* interrupts *)
       | 310, [] => finish enc_b ps s0 are_enabled | 311, [] => fu int_enable
       | 312, [] => fu int_disable
-      | 313, tree => finish (fun r : list Z * list Z => fst r) ps s0 (run_tree 64 tree)
+      | 313, tree => finish (fun r : list Z * list Z => fst r) ps s0 (run_tree (Z.to_nat 8192) tree)
       | 314, [] => fu enable_and_hlt | 315, [] => fu hlt
       (* ports *)
       | 320, [w; port; kind] => fz (port_read w (trunc16 port))
